@@ -625,6 +625,10 @@ def check_sess(ctx, drv):
                 if e["op"] == "CfgDone" and e["started"] and not e["completed"] and (c["cfg"]["ParallelWrites"] == 0 or c["cfg"]["ParallelReads"] == 0):
                     stalls.append("config row %d: ParallelReads=%d ParallelWrites=%d: no progress (no crash, no blocked call)" % (
                         c["idx"], c["cfg"]["ParallelReads"], c["cfg"]["ParallelWrites"]))
+    skips = [(t[0]["sub"], e.get("why"), e.get("status"), e.get("lasterr")) for t in traces for e in t if e["op"] == "Skip"]
+    ctx.extra["sess_skipped_scenarios"] = ["%s: %s (status=%s err=%s)" % x for x in skips][:10]
+    if len(skips) > max(2, len(traces) // 10):
+        raise vlib.MachineryError("session level: %d of %d scenarios could not be set up: %r" % (len(skips), len(traces), skips[:5]))
     # design observations (never a verdict): a semaphore of size 0 blocks every read / write for ever
     ctx.extra["sess_stalls"] = stalls[:12]
     if traces:
